@@ -5,10 +5,16 @@ Same heap as `Model/PList.lean` (node id ↦ node; the `prev` field of a node is
 header (`size`, `head`, `tail`, triple).  `get_node_at`/`get_node` return the node **and its predecessor**, `unlinkn`
 takes both — the `prev`-less unlink —, `cc_slist_reverse` is the three-variable flip loop; everything is written as the
 pointer surgery of the C text, assignment by assignment.  `Proofs/PSList*.lean` prove preservation of well-formedness and
-refinement of the sequence-level model (`Model/SList.lean`). -/
+refinement of the sequence-level model (`Model/SList.lean`).
+
+Dereference safety (see the header of `Model/PList.lean`): `unlinkn` checks its node and `prev`, `add_last`/`add_all`/`splice`
+check `list->tail` before `list->tail->next = …`, `iter_add`/`zip_iter_add` check `iter->current`, and the functions that
+dereference the result of `get_node_at` / `list->head` / the source cursor of `link_all_externally` have a `match` whose
+impossible branch raises the fault.  Not instrumented: `reverse` (three-variable flip loop; it stops at NULL by its `match`),
+`add_at`/`add_all_at`/`splice_at` after `get_node_at` (`prev` is tested by the C code itself), the `next`-walks inside loops. -/
 namespace CC.PSList
 open CC
-open CC.PList (Heap St Hdr PNode nd setNext setData optSetNext nextOf idsNext)
+open CC.PList (Heap St Hdr PNode nd setNext setData optSetNext nextOf idsNext live)
 
 /-- the loop of `get_node_at`: `(node, prev)` after `k` steps -/
 def walkAt (h : Heap) : Nat → Option Nat → Option Nat → Option Nat × Option Nat
@@ -34,6 +40,8 @@ def unlinkn (s : St) (l : Hdr) (node : Nat) (prev : Option Nat) (m : Mem) : Nat 
   let h := optSetNext s.heap prev n.next
   let l := if prev = none then { l with head := n.next } else l
   let l := if n.next = none then { l with tail := prev } else l
+  -- `node->data`, `node->next`, `prev->next` (under `if (prev)`), `mem_free(node)`: NULL/released pointers are a fault
+  let m := m.check (live s.heap (some node) && (prev == none || live s.heap prev))
   let s := ({ s with heap := h } : St).free node
   (n.data, s, { l with size := l.size - 1 }, m.freeT l.triple)
 
@@ -94,7 +102,8 @@ def addLast (s : St) (l : Hdr) (x : Nat) (m : Mem) : Stat × St × Hdr × Mem :=
   if l.size = 0 then
     (.ok, { r.2 with heap := h }, { l with head := some r.1, tail := some r.1, size := l.size + 1 }, a.2)
   else
-    (.ok, { r.2 with heap := optSetNext h l.tail (some r.1) }, { l with tail := some r.1, size := l.size + 1 }, a.2)
+    (.ok, { r.2 with heap := optSetNext h l.tail (some r.1) }, { l with tail := some r.1, size := l.size + 1 },
+     a.2.check (live s.heap l.tail))                      -- `list->tail->next = node` without a test
 
 /-- `cc_slist_add_at` -/
 def addAt (s : St) (l : Hdr) (x index : Nat) (m : Mem) : Stat × St × Hdr × Mem :=
@@ -119,7 +128,8 @@ def addAll (s : St) (l1 l2 : Hdr) (m : Mem) : Stat × St × Hdr × Mem :=
   if l1.size = 0 then
     (.ok, r.2.1, { l1 with head := r.2.2.1, tail := r.2.2.2.1, size := l1.size + l2.size }, r.2.2.2.2)
   else
-    (.ok, { r.2.1 with heap := optSetNext r.2.1.heap l1.tail r.2.2.1 }, { l1 with tail := r.2.2.2.1, size := l1.size + l2.size }, r.2.2.2.2)
+    (.ok, { r.2.1 with heap := optSetNext r.2.1.heap l1.tail r.2.2.1 }, { l1 with tail := r.2.2.2.1, size := l1.size + l2.size },
+     r.2.2.2.2.check (live s.heap l1.tail))               -- `list1->tail->next = head` without a test
 
 /-- `cc_slist_add_all_at` -/
 def addAllAt (s : St) (l1 l2 : Hdr) (index : Nat) (m : Mem) : Stat × St × Hdr × Mem :=
@@ -142,7 +152,7 @@ def splice (s : St) (l1 l2 : Hdr) (m : Mem) : Stat × St × Hdr × Hdr × Mem :=
     (.ok, s, { l1 with head := l2.head, tail := l2.tail, size := l1.size + l2.size }, { l2 with head := none, tail := none, size := 0 }, m)
   else
     (.ok, { s with heap := optSetNext s.heap l1.tail l2.head }, { l1 with tail := l2.tail, size := l1.size + l2.size },
-     { l2 with head := none, tail := none, size := 0 }, m)
+     { l2 with head := none, tail := none, size := 0 }, m.check (live s.heap l1.tail))   -- `list1->tail->next = list2->head`
 
 /-- `splice_between(l1, l2, base, end)` -/
 def spliceBetween (h : Heap) (l1 l2 : Hdr) (base e : Option Nat) : Heap × Hdr × Hdr :=
@@ -297,6 +307,113 @@ def filter (p : Nat → Bool) (s : St) (l : Hdr) (m : Mem) : Stat × St × Optio
   match c.2.1 with
   | none => (c.1, s, none, c.2.2)
   | some dst => buildLoop (fun v => if p v then some v else none) l.size s l.head dst c.2.2
+
+/-! ### iterators (`CC_SListIter`, `CC_SListZipIter`): the fields are node ids exactly as in the C structs -/
+
+/-- `CC_SListIter`: `index`, `current`, `prev`, `next` -/
+structure PIter where
+  index   : Nat := 0
+  current : Option Nat := none
+  prev    : Option Nat := none
+  next    : Option Nat := none
+  deriving DecidableEq
+
+/-- `cc_slist_iter_init` -/
+def piterInit (l : Hdr) : PIter := { next := l.head }
+
+/-- `cc_slist_iter_next` -/
+def piterNext (h : Heap) (it : PIter) : Stat × Option Nat × PIter :=
+  match it.next with
+  | none => (.iterEnd, none, it)
+  | some n =>
+    (.ok, some (nd h n).data,
+     { index := it.index + 1, prev := if it.current = none then it.prev else it.current, current := some n, next := (nd h n).next })
+
+/-- `cc_slist_iter_remove`: `unlinkn(list, current, prev)`, `current = NULL`, `index--` -/
+def piterRemove (s : St) (l : Hdr) (it : PIter) (m : Mem) : Stat × Option Nat × St × Hdr × PIter × Mem :=
+  match it.current with
+  | none => (.errValueNotFound, none, s, l, it, m)
+  | some c =>
+    let u := unlinkn s l c it.prev m
+    (.ok, some u.1, u.2.1, u.2.2.1, { it with current := none, index := it.index - 1 }, u.2.2.2)
+
+/-- `cc_slist_iter_add`: `new->next = iter->next; current->next = new; if (index == size) tail = new;
+prev = current; current = new; index++; size++` -/
+def piterAdd (s : St) (l : Hdr) (it : PIter) (x : Nat) (m : Mem) : Stat × St × Hdr × PIter × Mem :=
+  let a := m.allocT l.triple
+  if !a.1 then (.errAlloc, s, l, it, a.2) else
+  let r := s.alloc
+  let h := setData r.2.heap r.1 x
+  let h := setNext h r.1 it.next
+  let h := optSetNext h it.current (some r.1)
+  let l := if it.index = l.size then { l with tail := some r.1 } else l
+  (.ok, { r.2 with heap := h }, { l with size := l.size + 1 },
+   { index := it.index + 1, prev := it.current, current := some r.1, next := it.next },
+   a.2.check (live s.heap it.current))                    -- `iter->current->next = new_node` without a test
+
+/-- `cc_slist_iter_replace` -/
+def piterReplace (s : St) (it : PIter) (x : Nat) : Stat × Option Nat × St :=
+  match it.current with
+  | none => (.errValueNotFound, none, s)
+  | some c => (.ok, some (nd s.heap c).data, { s with heap := setData s.heap c x })
+
+/-- `CC_SListZipIter` -/
+structure PZip where
+  index : Nat := 0
+  cur1  : Option Nat := none
+  cur2  : Option Nat := none
+  prev1 : Option Nat := none
+  prev2 : Option Nat := none
+  next1 : Option Nat := none
+  next2 : Option Nat := none
+  deriving DecidableEq
+
+def pzipInit (l1 l2 : Hdr) : PZip := { next1 := l1.head, next2 := l2.head }
+
+/-- `cc_slist_zip_iter_next` -/
+def pzipNext (h : Heap) (z : PZip) : Stat × Option (Nat × Nat) × PZip :=
+  match z.next1, z.next2 with
+  | some n1, some n2 =>
+    (.ok, some ((nd h n1).data, (nd h n2).data),
+     { index := z.index + 1, prev1 := if z.cur1 = none then z.prev1 else z.cur1, prev2 := if z.cur2 = none then z.prev2 else z.cur2,
+       cur1 := some n1, cur2 := some n2, next1 := (nd h n1).next, next2 := (nd h n2).next })
+  | _, _ => (.iterEnd, none, z)
+
+/-- `cc_slist_zip_iter_add` -/
+def pzipAdd (s : St) (l1 l2 : Hdr) (z : PZip) (x1 x2 : Nat) (m : Mem) : Stat × St × Hdr × Hdr × PZip × Mem :=
+  let a1 := m.allocT l1.triple
+  if !a1.1 then (.errAlloc, s, l1, l2, z, a1.2) else
+  let a2 := a1.2.allocT l2.triple
+  if !a2.1 then (.errAlloc, s, l1, l2, z, a2.2.freeT l1.triple) else
+  let r1 := s.alloc
+  let r2 := r1.2.alloc
+  let h := setData r2.2.heap r1.1 x1
+  let h := setData h r2.1 x2
+  let h := setNext h r1.1 z.next1
+  let h := setNext h r2.1 z.next2
+  let h := optSetNext h z.cur1 (some r1.1)
+  let h := optSetNext h z.cur2 (some r2.1)
+  let l1 := if z.index = l1.size then { l1 with tail := some r1.1 } else l1
+  let l2 := if z.index = l2.size then { l2 with tail := some r2.1 } else l2
+  (.ok, { r2.2 with heap := h }, { l1 with size := l1.size + 1 }, { l2 with size := l2.size + 1 },
+   { index := z.index + 1, prev1 := z.cur1, prev2 := z.cur2, cur1 := some r1.1, cur2 := some r2.1, next1 := z.next1, next2 := z.next2 },
+   a2.2.check (live s.heap z.cur1 && live s.heap z.cur2))
+
+/-- `cc_slist_zip_iter_remove` -/
+def pzipRemove (s : St) (l1 l2 : Hdr) (z : PZip) (m : Mem) : Stat × Option (Nat × Nat) × St × Hdr × Hdr × PZip × Mem :=
+  match z.cur1, z.cur2 with
+  | some c1, some c2 =>
+    let u1 := unlinkn s l1 c1 z.prev1 m
+    let u2 := unlinkn u1.2.1 l2 c2 z.prev2 u1.2.2.2
+    (.ok, some (u1.1, u2.1), u2.2.1, u1.2.2.1, u2.2.2.1, { z with cur1 := none, cur2 := none, index := z.index - 1 }, u2.2.2.2)
+  | _, _ => (.errValueNotFound, none, s, l1, l2, z, m)
+
+/-- `cc_slist_zip_iter_replace` -/
+def pzipReplace (s : St) (z : PZip) (x1 x2 : Nat) : Stat × Option (Nat × Nat) × St :=
+  match z.cur1, z.cur2 with
+  | some c1, some c2 =>
+    (.ok, some ((nd s.heap c1).data, (nd s.heap c2).data), { s with heap := setData (setData s.heap c1 x1) c2 x2 })
+  | _, _ => (.errValueNotFound, none, s)
 
 /-- data along `next` from `head` -/
 def fwd (h : Heap) (l : Hdr) : List Nat := PList.dataNext h l.size l.head
